@@ -57,6 +57,10 @@ def rand_argv(rng):
     if rng.random() < 0.03:
         a.append(rng.choice(["--bogus", "x", "-", "--", "-Q"]))
     rng.shuffle(a) if rng.random() < 0.05 else None
+    if a and rng.random() < 0.04:
+        # an argument that is not UTF-8 (argv is bytes on unix): as a value, glued to an option, or on its own
+        k = rng.randrange(len(a))
+        a[k] = rng.choice([b"\xff", b"\xc3", b"1=\xff", b"-d\xff", b"--fields=\xff\xfe", b"-\xff", b"\xed\xa0\x80"]) if rng.random() < 0.7 else a[k].encode() + b"\xff"
     return a
 
 
@@ -97,7 +101,7 @@ def run(chk):
     chk.rule = (f"in-process: every bounds string of ≤ {L} symbols over {{1,2,9,-,+,:,=,{{,}},comma,backslash,a,é}} × modes -f(dispatch) -c -b -l -M "
                 "--json -m on fixed probe inputs; boundary records (only delimiter bytes) alone and as the 2nd/3rd record after records with several "
                 "fields, literal and regex delimiters × subsets of -g -p -s -j -r -t (watchdog 8 s, catch_unwind); CLI: random argv from the whole option grammar with adversarial "
-                "value pools (huge/negative/zero indexes, unbalanced/escaped braces, empty strings, multi-byte text, invalid regexes, -M extremes) "
+                "value pools (huge/negative/zero indexes, unbalanced/escaped braces, empty strings, multi-byte text, arguments that are not UTF-8, invalid regexes, -M extremes) "
                 "× adversarial stdin, on the debug AND the release build under timeout 10 s and RLIMIT_AS 1 GiB; -h / --help / -V / no argument / an unknown argument with stdout on a pseudo-terminal under TERM=xterm-256color, dumb, unset and NO_COLOR (the coloured-help code); non-trivial = argv with ≥ 2 options "
                 "or a bounds string of ≥ 2 symbols")
     run_corpus(chk)
